@@ -17,6 +17,7 @@ import (
 
 	dbm "github.com/tendermint/tm-db"
 
+	"github.com/tendermint/tendermint/crypto/merkle"
 	"github.com/tendermint/tendermint/libs/log"
 	tmjson "github.com/tendermint/tendermint/libs/json"
 	"github.com/tendermint/tendermint/light"
@@ -81,7 +82,7 @@ func atoi(s string) int { v, _ := strconv.Atoi(s); return v }
 func specOf(m map[string]string) chainSpec {
 	seed, _ := strconv.ParseInt(m["seed"], 10, 64)
 	pat, _ := strconv.ParseInt(m["pat"], 10, 64)
-	return chainSpec{seed: seed, n: atoi(m["n"]), nv: atoi(m["nv"]), events: m["ev"] == "1", txs: m["txs"] == "1", paramAt: pat}
+	return chainSpec{seed: seed, n: atoi(m["n"]), nv: atoi(m["nv"]), events: m["ev"] == "1", txs: m["txs"] == "1", paramAt: pat, uniq: m["uq"] == "1"}
 }
 
 // ---- one session: chain + light client + verifying client ----
@@ -326,6 +327,18 @@ func execCase1(c core.Case) []string {
 			out = append(out, "ok")
 			continue
 		}
+		if kind == "blocktxs" {
+			o := "ok"
+			if op != blockTxsLine(s.c, int64(atoi(m["h"]))) {
+				o += " DUMP-MISMATCH"
+			}
+			out = append(out, o)
+			continue
+		}
+		if kind == "txsearch" {
+			out = append(out, execTxSearch(s, m))
+			continue
+		}
 		s.be.p = &plan{mut: m["mut"], marg: atoi(m["marg"]), err: m["mut"] == "backend-error"}
 		s.be.unexpected = nil
 		res := ""
@@ -428,6 +441,58 @@ func execCase1(c core.Case) []string {
 	return out
 }
 
+func blockTxsLine(c *chain, h int64) string {
+	txs := make([][]byte, len(c.txsAt[h]))
+	for i, t := range c.txsAt[h] {
+		txs[i] = t
+	}
+	return fmt.Sprintf("blocktxs h=%d txs=%s", h, hxList(txs))
+}
+
+// execTxSearch asks the verifying client (which relays to the real rpc/core handler) and renders
+// every served result with its proof
+func execTxSearch(s *session, m map[string]string) (res string) {
+	defer func() {
+		if r := recover(); r != nil {
+			res = "panic"
+		}
+	}()
+	order := m["order"]
+	if order == "-" {
+		order = ""
+	}
+	r, err := s.cl.TxSearch(context.Background(), string(unhx(m["q"])), m["prove"] == "1", optInt(m["page"]), optInt(m["per"]), order)
+	if err != nil {
+		switch {
+		case strings.Contains(err.Error(), "expected order_by"):
+			return "err:order"
+		case strings.Contains(err.Error(), "page should be within"):
+			return "err:page"
+		}
+		return "err:other:" + err.Error()
+	}
+	items := make([]string, len(r.Txs))
+	for i, t := range r.Txs {
+		if m["prove"] == "1" {
+			items[i] = fmt.Sprintf("%d/%d/%s/%s/%s", t.Height, t.Index, hx(t.Proof.RootHash), hx(t.Proof.Data), proofTok(&t.Proof.Proof))
+		} else {
+			items[i] = fmt.Sprintf("%d/%d/-/-/0/0/-/-", t.Height, t.Index)
+			if len(t.Proof.RootHash) != 0 || len(t.Proof.Data) != 0 {
+				items[i] += "!unexpected-proof"
+			}
+		}
+		// the relayed bytes and hash are the indexed transaction's
+		if want := s.c.txsAt[t.Height]; int(t.Index) >= len(want) || !bytes.Equal(want[t.Index], t.Tx) || !bytes.Equal(t.Hash, t.Tx.Hash()) {
+			items[i] += "!wrong-tx"
+		}
+	}
+	l := strings.Join(items, ";")
+	if l == "" {
+		l = "-"
+	}
+	return fmt.Sprintf("ok total=%d res=%s", r.TotalCount, l)
+}
+
 func servedBlock(v interface{}) *ctypes.ResultBlock {
 	r, _ := v.(*ctypes.ResultBlock)
 	return r
@@ -520,6 +585,10 @@ func oracle(c core.Case, out []string) []core.Finding {
 			ch = getChain(specOf(m))
 			continue
 		}
+		if kind == "txsearch" && ch != nil && o != "bad-op" {
+			fs = append(fs, servedOracle(ch, m, o)...)
+			continue
+		}
 		kn, isCall := kindName[kind]
 		if !isCall || ch == nil || o == "bad-op" {
 			continue
@@ -600,6 +669,123 @@ func oracle(c core.Case, out []string) []core.Finding {
 		}
 	}
 	return fs
+}
+
+// servedOracle: every inclusion proof the full node's RPC serves verifies against the data hash of
+// the block it refers to, and is for the transaction at (height, index)
+func servedOracle(ch *chain, m map[string]string, o string) []core.Finding {
+	var fs []core.Finding
+	add := func(fp, desc string) { fs = append(fs, core.Finding{Fingerprint: fp, Desc: desc}) }
+	where := fmt.Sprintf("tx_search(%q, prove=%s, page=%s, per_page=%s, order_by=%s)", string(unhx(m["q"])), m["prove"], m["page"], m["per"], m["order"])
+	if o == "panic" {
+		add("rpccore.TxSearch.panics", where+" panicked on an honest index")
+		return fs
+	}
+	if !strings.HasPrefix(o, "ok ") {
+		if strings.HasPrefix(o, "err:other") {
+			add("rpccore.TxSearch.unexpected-error", where+": "+o)
+		}
+		return fs
+	}
+	mm := kvs(o)
+	if mm["res"] == "-" || mm["res"] == "" {
+		return fs
+	}
+	for _, it := range strings.Split(mm["res"], ";") {
+		if strings.Contains(it, "!") {
+			add("rpccore.TxSearch.wrong-result", where+" returned "+it)
+			continue
+		}
+		f := strings.Split(it, "/")
+		if len(f) != 8 || m["prove"] != "1" {
+			continue
+		}
+		h, _ := strconv.ParseInt(f[0], 10, 64)
+		idx := atoi(f[1])
+		lb := ch.lbs[h]
+		if lb == nil || idx >= len(ch.txsAt[h]) {
+			add("rpccore.TxSearch.result-outside-chain", where+" returned "+it)
+			continue
+		}
+		total, _ := strconv.ParseInt(f[4], 10, 64)
+		pidx, _ := strconv.ParseInt(f[5], 10, 64)
+		var aunts [][]byte
+		if f[7] != "-" {
+			for _, a := range strings.Split(f[7], ",") {
+				aunts = append(aunts, unhx(a))
+			}
+		}
+		tp := types.TxProof{RootHash: unhx(f[2]), Data: types.Tx(unhx(f[3])), Proof: merkle.Proof{Total: total, Index: pidx, LeafHash: unhx(f[6]), Aunts: aunts}}
+		switch {
+		case !bytes.Equal(tp.RootHash, lb.DataHash) || tp.Validate(lb.DataHash) != nil:
+			add("rpccore.TxSearch.proof-does-not-verify-against-its-block", fmt.Sprintf("%s: the proof served for the result at height %d index %d (root %s) does not validate against that block's data hash %X", where, h, idx, f[2], lb.DataHash))
+		case !bytes.Equal(tp.Data, ch.txsAt[h][idx]):
+			add("rpccore.TxSearch.proof-for-other-tx", fmt.Sprintf("%s: the proof served for height %d index %d is for %q, the transaction there is %q", where, h, idx, tp.Data, ch.txsAt[h][idx]))
+		case pidx != int64(idx) || total != int64(len(ch.txsAt[h])):
+			add("rpccore.TxSearch.proof-position-restated", fmt.Sprintf("%s: the proof served for height %d index %d states position %d of %d", where, h, idx, pidx, total))
+		}
+	}
+	return fs
+}
+
+// searchSession: what a full node's RPC serves (Tx and TxSearch with proofs, both orders, pages
+// spanning several heights, blocks with different numbers of transactions)
+func searchSession(r *rand.Rand, tier string) core.Case {
+	spec := chainSpec{seed: int64(100 + r.Intn(12)), n: 3 + r.Intn(6), nv: 1 + r.Intn(3), events: r.Intn(2) == 0, txs: true, uniq: true}
+	c := getChain(spec)
+	setEnv(c)
+	root := int64(1 + r.Intn(spec.n))
+	g := &gen{r: r, c: c, be: &backend{c: c, p: &plan{}}, root: root, stored: map[int64]bool{root: true}}
+	ops := []string{fmt.Sprintf("chain seed=%d n=%d nv=%d ev=%d txs=%d pat=%d root=%d uq=1", spec.seed, spec.n, spec.nv, b01(spec.events), b01(spec.txs), spec.paramAt, root)}
+	for h := int64(1); h <= int64(spec.n); h++ {
+		ops = append(ops, trustLine(c.lbs[h]))
+	}
+	for h := int64(1); h <= int64(spec.n); h++ {
+		ops = append(ops, blockTxsLine(c, h))
+	}
+	n := int64(spec.n)
+	for k := 5 + r.Intn(6); k > 0; k-- {
+		if r.Intn(4) == 0 { // /tx through the verifying client
+			h := 1 + r.Int63n(n)
+			if txs := c.txsAt[h]; len(txs) > 0 {
+				tx := txs[r.Intn(len(txs))]
+				ops = append(ops, g.scripted("tx", "hash="+hx(tx.Hash())+" prove=1", "none", 0)...)
+			}
+			continue
+		}
+		a, b := 1+r.Int63n(n), 1+r.Int63n(n)
+		if a > b {
+			a, b = b, a
+		}
+		if r.Intn(3) == 0 {
+			a, b = 1, n
+		}
+		q := fmt.Sprintf("tx.height >= %d AND tx.height <= %d", a, b)
+		var hits []string
+		for h := a; h <= b; h++ {
+			for i := range c.txsAt[h] {
+				hits = append(hits, fmt.Sprintf("%d/%d", h, i))
+			}
+		}
+		hl := strings.Join(hits, ",")
+		if hl == "" {
+			hl = "-"
+		}
+		order := []string{"asc", "desc", "desc", "-", "sideways"}[r.Intn(5)]
+		page, per := "nil", "nil"
+		if r.Intn(2) == 0 {
+			page = fmt.Sprint(r.Intn(4))
+		}
+		if r.Intn(3) != 0 {
+			per = fmt.Sprint([]int{0, 1, 2, 3, 4, 5, 7, 30, 101}[r.Intn(9)])
+		}
+		prove := 1
+		if r.Intn(6) == 0 {
+			prove = 0
+		}
+		ops = append(ops, fmt.Sprintf("txsearch q=%s prove=%d page=%s per=%s order=%s hits=%s", hx([]byte(q)), prove, page, per, order, hl))
+	}
+	return core.Case{Kind: "served", Ops: ops}
 }
 
 // ---- generator ----
@@ -1042,6 +1228,13 @@ func genCases(r *rand.Rand, tier string, emit func(core.Case)) {
 		}
 		emit(core.Case{Kind: "session", Ops: ops})
 	}
+	nServed := 60
+	if tier == "thorough" {
+		nServed = 500
+	}
+	for i := 0; i < nServed; i++ {
+		emit(searchSession(r, tier))
+	}
 	// the two tables of bound fields agree
 	var ops []string
 	for _, kf := range tableKeys() {
@@ -1080,6 +1273,20 @@ func main() {
 		Oracle:   oracle,
 		NonTrivial: func(c core.Case, out []string) bool {
 			acc, rej := false, false
+			if c.Kind == "served" { // at least one page of served proofs spanning two heights
+				for i, o := range out {
+					if strings.HasPrefix(c.Ops[i], "txsearch") && strings.Contains(c.Ops[i], "prove=1") && strings.HasPrefix(o, "ok ") {
+						hs := map[string]bool{}
+						for _, it := range strings.Split(kvs(o)["res"], ";") {
+							hs[strings.SplitN(it, "/", 2)[0]] = true
+						}
+						if len(hs) >= 2 {
+							return true
+						}
+					}
+				}
+				return false
+			}
 			for i, o := range out {
 				if !strings.Contains(c.Ops[i], " mut=") {
 					continue
@@ -1093,7 +1300,7 @@ func main() {
 			}
 			return acc && rej
 		},
-		Rule: "sessions over real chains (2..8 blocks, thorough up to 34; 1..8 validators; with/without txs, events, a consensus-param change) built by the real BlockExecutor; honest full node = real rpc/core handlers + JSON round trip; lying node = one named field-level falsification per call (every field of every response kind, consistent re-hashing liars, proof restatements, substitutions by genuine answers for other requests, backend errors); real light.Client (skipping verification, trust root at a random height) under the real light/rpc Client; requests in and out of range, latest (nil) heights, pagination. Non-trivial = a session with at least one relayed and one refused answer; distinct by hash of the op list",
+		Rule: "sessions over real chains (2..8 blocks, thorough up to 34; 1..8 validators; with/without txs, events, a consensus-param change) built by the real BlockExecutor; honest full node = real rpc/core handlers + JSON round trip; lying node = one named field-level falsification per call (every field of every response kind, consistent re-hashing liars, proof restatements, substitutions by genuine answers for other requests, backend errors); real light.Client (skipping verification, trust root at a random height) under the real light/rpc Client; requests in and out of range, latest (nil) heights, pagination. plus served-proof sessions: the real rpc/core Tx and TxSearch handlers (through the verifying client, which relays TxSearch) with prove on/off, asc/desc/default/invalid order, pages and page sizes over height ranges of chains with distinct transactions and different numbers of transactions per block, every served proof rendered and compared with the model's Txs.Proof of the block at the result's height. Non-trivial = a session with at least one relayed and one refused answer (served: a proven result page spanning two heights); distinct by hash of the op list",
 		Assumptions: []string{
 			"SHA-256 is modelled as an arbitrary function H with fixed output length; soundness theorems conclude claim-or-explicit-collision",
 			"the light client is modelled against honest providers (its own verification is property C09): a verified height is the chain's block of that height",
